@@ -402,4 +402,123 @@ theorem comps_join_valid (name : Str) (h : ∀ c ∈ splitOnChar '/' name, plain
   rw [e2, hc]
   rfl
 
+
+/-! ### cycles of any length -/
+
+theorem hopsTo_prefix {root : Dir} : ∀ {k : Nat} {p r : Str}, HopsTo root k p r → ∀ j, j ≤ k → ∃ q, HopsTo root j p q := by
+  intro k p r h
+  induction h with
+  | zero p =>
+    intro j hj
+    have hj0 : j = 0 := by omega
+    subst hj0
+    exact ⟨p, HopsTo.zero p⟩
+  | succ hh _ ih =>
+    intro j hj
+    cases j with
+    | zero => exact ⟨_, HopsTo.zero _⟩
+    | succ j =>
+      obtain ⟨q, hq⟩ := ih j (by omega)
+      exact ⟨q, HopsTo.succ hh hq⟩
+
+/-- `j` hops with exactly `j` fuel run out of fuel. -/
+theorem openAt_exact_fuel {root : Dir} {j : Nat} {p q : Str} (h : HopsTo root j p q) : openAt root j p = .outOfFuel := by
+  have := openAt_hopsTo h 0
+  simp only [Nat.zero_add] at this
+  rw [this]; rfl
+
+/-- **Any symlink cycle exhausts every fuel**: if `k+1` hops lead from `p` back to `p`, `open` never returns. -/
+theorem openAt_cycle {root : Dir} {k : Nat} {p : Str} (h : HopsTo root (k + 1) p p) : ∀ n, openAt root n p = .outOfFuel := by
+  intro n
+  induction n using Nat.strongRecOn with
+  | _ n ih =>
+    by_cases hn : n ≤ k + 1
+    · obtain ⟨q, hq⟩ := hopsTo_prefix h n hn
+      exact openAt_exact_fuel hq
+    · obtain ⟨m, rfl⟩ : ∃ m, n = m + (k + 1) := ⟨n - (k + 1), by omega⟩
+      rw [openAt_hopsTo h m]
+      exact ih m (by omega)
+
+/-! ### what `open` can return -/
+
+/-- A file `open` returns is a file `findNode` finds at some path. -/
+theorem openAt_file_found {root : Dir} : ∀ (n : Nat) (p : Str) (f : FileN), openAt root n p = .file f →
+    ∃ q, findNode root (comps q) = some (.file f) := by
+  intro n
+  induction n with
+  | zero => intro p f h; simp [openAt] at h
+  | succ n ih =>
+    intro p f h
+    rw [openAt] at h
+    cases hf : findNode root (comps p) with
+    | none => simp [hf] at h
+    | some x =>
+      cases x with
+      | file g => simp only [hf, OpenRes.file.injEq] at h; subst h; exact ⟨p, hf⟩
+      | dir nm d => simp [hf] at h
+      | link l =>
+        simp only [hf] at h
+        split at h
+        · cases h
+        · exact ih _ f h
+
+/-! ### the listing -/
+
+/-- `ReadDir(n ≤ 0)` lists exactly the entries the tree has directly in that directory. -/
+theorem mem_entries_iff (d : Dir) (i : Info) : i ∈ entries d ↔ ∃ x, At d [i.name] x ∧ x.info = i := by
+  unfold entries
+  simp only [List.mem_append, List.mem_map]
+  constructor
+  · rintro ((⟨e, he, rfl⟩ | ⟨f, hf, rfl⟩) | ⟨l, hl, rfl⟩)
+    · exact ⟨.dir e.1 e.2, At.dir (by cases e; exact he), rfl⟩
+    · exact ⟨.file f, At.file hf, rfl⟩
+    · exact ⟨.link l, At.link hl, rfl⟩
+  · rintro ⟨x, hat, rfl⟩
+    generalize hp : [x.info.name] = p at hat
+    cases hat with
+    | file hm => left; right; exact ⟨_, hm, rfl⟩
+    | link hm => right; exact ⟨_, hm, rfl⟩
+    | dir hm => left; left; exact ⟨(_, _), hm, rfl⟩
+    | step hm hne _ =>
+      simp only [List.cons.injEq] at hp
+      exact absurd hp.2.symm hne
+
+/-! ### a working directory with plain components -/
+
+theorem splitOnChar_append_sep : ∀ (a b : Str), splitOnChar '/' (a ++ '/' :: b) = splitOnChar '/' a ++ splitOnChar '/' b
+  | [], b => by
+    rw [List.nil_append, splitOnChar]
+    cases h : splitOnChar '/' b with
+    | nil => exact absurd h (splitOnChar_ne_nil _ _)
+    | cons w ws => simp [splitOnChar, h]
+  | c :: a, b => by
+    have ih := splitOnChar_append_sep a b
+    rw [List.cons_append, splitOnChar, ih]
+    cases h : splitOnChar '/' a with
+    | nil => exact absurd h (splitOnChar_ne_nil _ _)
+    | cons w ws =>
+      rw [splitOnChar, h]
+      by_cases hc : c = '/' <;> simp [hc]
+
+/-- With a working directory and a name that both consist of plain components, `Open`/`Stat` look up the
+    components of the working directory followed by those of the name. -/
+theorem comps_join_wd (wd name : Str) (hw : ∀ c ∈ splitOnChar '/' wd, plain c) (hn : ∀ c ∈ splitOnChar '/' name, plain c) :
+    comps (pathJoin [pathClean wd, name]) = splitOnChar '/' wd ++ splitOnChar '/' name := by
+  have hwne : wd ≠ [] := by
+    intro e; subst e; have := hw [] (by simp [splitOnChar]); exact this.1 rfl
+  have hnne : name ≠ [] := by
+    intro e; subst e; have := hn [] (by simp [splitOnChar]); exact this.1 rfl
+  rw [pathClean_plain wd hw]
+  have hall : ∀ c ∈ splitOnChar '/' (wd ++ '/' :: name), plain c := by
+    rw [splitOnChar_append_sep]
+    intro c hc
+    rcases List.mem_append.mp hc with h | h
+    · exact hw c h
+    · exact hn c h
+  have e : pathJoin [wd, name] = pathClean (wd ++ '/' :: name) := by
+    simp [pathJoin, List.dropWhile, hwne, joinWith]
+  rw [e, pathClean_plain _ hall]
+  unfold comps
+  exact splitOnChar_append_sep wd name
+
 end PlzVerif.CASFS
